@@ -3,10 +3,10 @@
 
 use crate::oracle::Mat;
 use linfa::traits::{Fit, Predict};
-use linfa::{Dataset, Float};
+use linfa::{DatasetBase, Float};
 use linfa_elasticnet::{ElasticNet, ElasticNetParams, ElasticNetParamsBase, MultiTaskElasticNet, MultiTaskElasticNetParams};
 use linfa_linear::LinearRegression;
-use ndarray::{Array1, Array2};
+use ndarray::{s, Array1, Array2, ArrayView1, ArrayView2, Axis, ShapeBuilder};
 
 #[derive(Debug, Clone)]
 pub struct EnetOut {
@@ -62,15 +62,101 @@ fn f<F: Float>(v: F) -> f64 {
     v.to_f64().unwrap_or(f64::NAN)
 }
 
-fn arr2<F: Float>(m: &Mat, r: usize, c: usize) -> Array2<F> {
-    Array2::from_shape_fn((r, c), |(i, j)| F::cast(m[i][j]))
+/// Memory layouts in which a logical matrix / vector is handed to linfa. The logical content is
+/// always the same; only the backing storage and the strides of the view differ.
+///   0 row-major (standard layout)            1 column-major (Fortran layout, contiguous)
+///   2 every second row of a 2r x c table     3 rows stored in reverse, axis 0 inverted (contiguous, negative stride)
+///   4 columns stored in reverse, axis 1 inverted
+///   5 transposed view of a feature-major (c x r) row-major table
+/// One-dimensional targets know only standard (0, 1, 5), every second element (2) and reversed (3, 4).
+pub const N_LAYOUTS: u8 = 6;
+
+pub struct Laid2<F> {
+    backing: Array2<F>,
+    kind: u8,
 }
 
-pub fn fit_enet<F: Float>(x: &Mat, y: &Mat, n: usize, p: usize, t: usize, cfg: &EnetCfg) -> Result<EnetOut, String> {
-    let xa: Array2<F> = arr2(x, n, p);
+impl<F: Float> Laid2<F> {
+    pub fn new(m: &Mat, r: usize, c: usize, kind: u8) -> Self {
+        let at = |i: usize, j: usize| F::cast(m[i][j]);
+        let backing = match kind {
+            1 => {
+                let mut a = Array2::<F>::zeros((r, c).f());
+                for i in 0..r {
+                    for j in 0..c {
+                        a[(i, j)] = at(i, j);
+                    }
+                }
+                a
+            }
+            2 => Array2::from_shape_fn((2 * r, c), |(i, j)| if i % 2 == 0 { at(i / 2, j) } else { F::cast(977.0 + i as f64 - 3.5 * j as f64) }),
+            3 => Array2::from_shape_fn((r, c), |(i, j)| at(r - 1 - i, j)),
+            4 => Array2::from_shape_fn((r, c), |(i, j)| at(i, c - 1 - j)),
+            5 => Array2::from_shape_fn((c, r), |(j, i)| at(i, j)),
+            _ => Array2::from_shape_fn((r, c), |(i, j)| at(i, j)),
+        };
+        Laid2 { backing, kind }
+    }
+    pub fn view(&self) -> ArrayView2<'_, F> {
+        match self.kind {
+            2 => self.backing.slice(s![..;2, ..]),
+            3 => {
+                let mut v = self.backing.view();
+                v.invert_axis(Axis(0));
+                v
+            }
+            4 => {
+                let mut v = self.backing.view();
+                v.invert_axis(Axis(1));
+                v
+            }
+            5 => self.backing.t(),
+            _ => self.backing.view(),
+        }
+    }
+}
+
+pub struct Laid1<F> {
+    backing: Array1<F>,
+    kind: u8,
+}
+
+impl<F: Float> Laid1<F> {
+    pub fn new(v: &[f64], kind: u8) -> Self {
+        let r = v.len();
+        let backing = match kind {
+            2 => Array1::from_shape_fn(2 * r, |i| if i % 2 == 0 { F::cast(v[i / 2]) } else { F::cast(-613.0 + i as f64) }),
+            3 | 4 => Array1::from_shape_fn(r, |i| F::cast(v[r - 1 - i])),
+            _ => Array1::from_shape_fn(r, |i| F::cast(v[i])),
+        };
+        Laid1 { backing, kind }
+    }
+    pub fn view(&self) -> ArrayView1<'_, F> {
+        match self.kind {
+            2 => self.backing.slice(s![..;2]),
+            3 | 4 => {
+                let mut v = self.backing.view();
+                v.invert_axis(Axis(0));
+                v
+            }
+            _ => self.backing.view(),
+        }
+    }
+}
+
+pub fn fit_enet<F: Float>(x: &Mat, y: &Mat, n: usize, p: usize, t: usize, cfg: &EnetCfg, x_layout: u8, y_layout: u8) -> Result<EnetOut, String> {
+    let xl: Laid2<F> = Laid2::new(x, n, p, x_layout);
+    let xa = xl.view();
+    if xa.dim() != (n, p) || (0..n).any(|i| (0..p).any(|j| f(xa[(i, j)]) != f(F::cast(x[i][j])))) {
+        return Err("harness: laid-out records differ from the logical matrix".into());
+    }
     if cfg.multi {
-        let ya: Array2<F> = arr2(y, n, t);
-        let ds = Dataset::new(xa.clone(), ya);
+        let yl: Laid2<F> = Laid2::new(y, n, t, y_layout);
+        let ya = yl.view();
+        if ya.dim() != (n, t) || (0..n).any(|i| (0..t).any(|c| f(ya[(i, c)]) != f(F::cast(y[i][c])))) {
+            return Err("harness: laid-out targets differ from the logical matrix".into());
+        }
+        let ds = DatasetBase::new(xa, ya);
         let (base, preset): (MultiTaskElasticNetParams<F>, bool) = match cfg.ctor {
             1 => (MultiTaskElasticNetParams::<F>::new(), false),
             2 => (MultiTaskElasticNetParams::<F>::default(), false),
@@ -97,8 +183,13 @@ pub fn fit_enet<F: Float>(x: &Mat, y: &Mat, n: usize, p: usize, t: usize, cfg: &
             pred: (0..n).map(|i| (0..t).map(|c| f(pred[(i, c)])).collect()).collect(),
         })
     } else {
-        let ya: Array1<F> = Array1::from_shape_fn(n, |i| F::cast(y[i][0]));
-        let ds = Dataset::new(xa.clone(), ya);
+        let ycol: Vec<f64> = y.iter().map(|r| r[0]).collect();
+        let yl: Laid1<F> = Laid1::new(&ycol, y_layout);
+        let ya = yl.view();
+        if ya.len() != n || (0..n).any(|i| f(ya[i]) != f(F::cast(ycol[i]))) {
+            return Err("harness: laid-out targets differ from the logical vector".into());
+        }
+        let ds = DatasetBase::new(xa, ya);
         let (base, preset): (ElasticNetParams<F>, bool) = match cfg.ctor {
             1 => (ElasticNetParams::<F>::new(), false),
             2 => (ElasticNetParams::<F>::default(), false),
@@ -136,10 +227,16 @@ pub struct OlsOut {
 
 /// `ctor`: 0 = `LinearRegression::new()`, 1 = `LinearRegression::default()`; with `leave_defaults` the
 /// intercept option is not touched when it equals its documented default (intercept fitted).
-pub fn fit_ols<F: Float>(x: &Mat, y: &[f64], n: usize, p: usize, intercept: bool, ctor: u8, leave_defaults: bool) -> Result<OlsOut, String> {
-    let xa: Array2<F> = arr2(x, n, p);
-    let ya: Array1<F> = Array1::from_shape_fn(n, |i| F::cast(y[i]));
-    let ds = Dataset::new(xa.clone(), ya);
+#[allow(clippy::too_many_arguments)]
+pub fn fit_ols<F: Float>(x: &Mat, y: &[f64], n: usize, p: usize, intercept: bool, ctor: u8, leave_defaults: bool, x_layout: u8, y_layout: u8) -> Result<OlsOut, String> {
+    let xl: Laid2<F> = Laid2::new(x, n, p, x_layout);
+    let xa = xl.view();
+    let yl: Laid1<F> = Laid1::new(y, y_layout);
+    let ya = yl.view();
+    if xa.dim() != (n, p) || ya.len() != n || (0..n).any(|i| f(ya[i]) != f(F::cast(y[i])) || (0..p).any(|j| f(xa[(i, j)]) != f(F::cast(x[i][j])))) {
+        return Err("harness: laid-out data differ from the logical data".into());
+    }
+    let ds = DatasetBase::new(xa, ya);
     let mut lr = if ctor == 1 { LinearRegression::default() } else { LinearRegression::new() };
     if !(leave_defaults && intercept) {
         lr = lr.with_intercept(intercept);
